@@ -1,3 +1,4 @@
+import numbers
 import networkx as nx
 import flowpaths.stdag as stdag
 import flowpaths.abstractpathmodeldag as pathmodel
@@ -164,6 +165,10 @@ class kMinPathError(pathmodel.AbstractPathModelDAG):
         utils.logger.info(f"{__name__}: START initialized with graph id = {utils.fpid(G)}, k = {k}")
 
         # Handling node-weighted graphs
+        # k is validated first: before it is used in arithmetic, and independently of solution_weights_superset
+        if k is not None and (isinstance(k, bool) or not isinstance(k, numbers.Integral) or k <= 0):
+            utils.logger.error(f"{__name__}: k must be a positive integer, not {k}")
+            raise ValueError(f"k must be a positive integer, not {k}")
         self.flow_attr_origin = flow_attr_origin
         if self.flow_attr_origin == "node":
             if G.number_of_nodes() == 0:
